@@ -1041,6 +1041,12 @@ class ParseUniq:
             blocknode=blocknode,
         )
 
+    def create_syntaxhighlight(self, _name, vlist, inner, xopts):
+        # the same node as <source>, built directly: writing the body back into
+        # '<source>...</source>' text and parsing that again would let a
+        # '</source>' inside the body end it early
+        return self.create_source("source", vlist, inner, xopts)
+
     def create_ref(self, _name, vlist, inner, xopts):
         expander = xopts.expander
         if expander is not None and inner:
